@@ -81,7 +81,11 @@ def check_config(rc, vin, params, env, acc, cache):
     if src0.check_number(lw.State(list(full_in))) != len(stats0):
         acc.violation("check_number", case, None)
     # (ii) thresholding = drop entries below the threshold, renormalise
-    src = emu.Source(purity=pu, brightness=b, indistinguishability=ind, probability_threshold=thr)
+    # the documented positional order (purity, brightness, indistinguishability, threshold) for every other configuration
+    if (len(vin) + sum(vin) + int(1000 * b) + int(1000 * ind)) % 2:
+        src = emu.Source(pu, b, ind, thr)
+    else:
+        src = emu.Source(purity=pu, brightness=b, indistinguishability=ind, probability_threshold=thr)
     if thr:
         stats = src._build_statistics(lw.State(list(full_in)))
         kept = {s: p for s, p in stats0.items() if p >= thr}
@@ -256,6 +260,13 @@ def run(tier, seed):
             for params in grid:
                 # 3+ requested photons with all three imperfections at once: generic point only (quick)
                 jobs.append((rc, vin, params))
+
+    # a mode holding three photons followed by another occupied mode (labels of distinguishable photons must stay
+    # distinct across modes): 4 requested photons, small grid
+    rc3 = next(rc for rc in circuits(env) if rc["n"] == 3 and not any(op[0] in ("her", "loss") for op in rc["ops"]))
+    for vin in ((3, 1, 0), (3, 0, 1)):
+        for params in ((1, 1, 0, 0), (1, 1, gi[0], 0), (gb[0], gp[0], gi[1], 0)):
+            jobs.append((rc3, vin, params))
 
     def shard_fn(js):
         acc = kernel.Acc()
